@@ -149,3 +149,164 @@ Proof.
                         mkFam [103%N] [mkCol [113%N] [mkCell 1000 [5%N] []]]])]).
     split; vm_compute; reflexivity.
 Qed.
+
+(* ================================================================== *)
+(* hand-over (interleaving) theorems                                   *)
+(* ================================================================== *)
+(* The concurrency half of C16: a GC pass hands the table lock over every btGcBatch rows and races
+   with writers.  Statements about the interleaving model BT/Conc.v (one scheduler step of the GC
+   thread = one batch), for ALL schedules; proofs are in BT/GcConcProofs.v and BT/ConcProofs.v. *)
+From Emu.Gen Require Import Consts.
+From Emu.BT Require Import Conc ConcProofs GcConcProofs.
+
+(* one batch changes only rows among the first btGcBatch keys, each to what the per-row step
+   makes of its CURRENT value in t (the row is re-read under the lock); the other rows and the
+   schema are untouched; the keys left are the rest of the list *)
+Theorem C16_gc_section_pointwise : forall t now keys, asorted (t_rows t) -> NoDup keys ->
+  let t' := fst (gc_section t now keys) in
+  snd (gc_section t now keys) = skipn (Z.to_nat btGcBatch) keys
+  /\ (length (gc_batch keys) <= Z.to_nat btGcBatch)%nat
+  /\ t_fams t' = t_fams t
+  /\ asorted (t_rows t')
+  /\ (forall k, ~ In k (gc_batch keys) -> alookup k (t_rows t') = alookup k (t_rows t))
+  /\ (forall k, In k (gc_batch keys) ->
+        alookup k (t_rows t') =
+        match alookup k (t_rows t) with
+        | None => None
+        | Some fs => if fst (gc_fams (t_fams t) now fs)
+                     then AdminProofs.nonempty_opt (scrub_fams (t_fams t) (snd (gc_fams (t_fams t) now fs)))
+                     else Some fs
+        end).
+Proof. exact gc_section_pointwise. Qed.
+Print Assumptions C16_gc_section_pointwise.
+
+(* in terms of contents: per visited row exactly what the rules condemn NOW goes *)
+Theorem C16_gc_section_content : forall t now keys, table_ok t -> NoDup keys ->
+  let t' := fst (gc_section t now keys) in
+  table_ok t' /\ t_fams t' = t_fams t
+  /\ (forall k, In k (gc_batch keys) -> gc_content (t_fams t) now (get_row t k) (get_row t' k))
+  /\ (forall k, ~ In k (gc_batch keys) -> alookup k (t_rows t') = alookup k (t_rows t)).
+Proof. exact gc_section_content. Qed.
+Print Assumptions C16_gc_section_content.
+
+(* gc_sections_bounded: "never locks clients out for more than one batch".  One scheduler step
+   of a parked GC thread = ONE batch of at most btGcBatch rows, then it is parked at the hand-over
+   again (with exactly the other keys left) or has answered ... *)
+Theorem C16_gc_step_one_batch : forall st i c rest keys now tbl,
+  thread_at st i c rest (PGc keys now) -> Conc.req_table (cl_req c) = Some tbl ->
+  snd (cstep st i) <> OBlocked ->
+  cs_server (fst (cstep st i)) = apply_effect (cs_server st) (EGc tbl now keys)
+  /\ (length (gc_batch keys) <= Z.to_nat btGcBatch)%nat
+  /\ ((snd (cstep st i) = OAt /\ prog_at (fst (cstep st i)) i = PGc (skipn (Z.to_nat btGcBatch) keys) now)
+      \/ (snd (cstep st i) = ODone (ok YNone) /\ prog_at (fst (cstep st i)) i = PNew)).
+Proof. exact gc_step_one_batch. Qed.
+Print Assumptions C16_gc_step_one_batch.
+
+(* ... and while it is parked it keeps nobody out: only writers parked inside their write
+   section (PMid) ever block a step *)
+Theorem C16_gc_parked_never_blocks : forall st i g keys now,
+  conc_inv st -> prog_at st g = PGc keys now ->
+  cs_holder st <> Some g
+  /\ (snd (cstep st i) = OBlocked -> exists j k, cs_holder st = Some j /\ j <> g /\ prog_at st j = PMid k).
+Proof. exact gc_parked_never_blocks. Qed.
+Print Assumptions C16_gc_parked_never_blocks.
+
+(* the server after ANY schedule is the serial composition, in schedule order, of the commit
+   effects ([step] of the committing request) and the batch effects ([gc_section] on the table
+   as it is at that moment) *)
+Theorem C16_crun_is_serial_effects : forall sched st,
+  cs_server (fst (crun st sched)) = fold_left apply_effect (effects st sched) (cs_server st).
+Proof. exact crun_is_serial_effects. Qed.
+Print Assumptions C16_crun_is_serial_effects.
+
+(* the data-model invariant survives every interleaving of requests and GC batches *)
+Theorem C16_crun_server_ok : forall sched st, server_ok (cs_server st) -> server_ok (cs_server (fst (crun st sched))).
+Proof. exact crun_server_ok. Qed.
+Print Assumptions C16_crun_server_ok.
+
+(* a batch keeps every cell the rule in force does not condemn now *)
+Theorem C16_gc_effect_keeps : forall s tbl' now keys tbl key fam q ts v, server_ok s ->
+  has_cell s tbl key fam q ts v -> (tbl' = tbl -> uncondemned s tbl fam ts now) ->
+  has_cell (apply_effect s (EGc tbl' now keys)) tbl key fam q ts v.
+Proof. exact gc_effect_keeps. Qed.
+Print Assumptions C16_gc_effect_keeps.
+
+(* no lost write: a stored cell (e.g. just written by an OK MutateRow, next theorem) is still
+   stored after ANY schedule of GC batches and commits in which no committed request deletes it
+   and no batch runs under a rule condemning it at the pass's clock *)
+Theorem C16_gc_no_lost_write : forall sched st tbl key fam q ts v,
+  server_ok (cs_server st) -> has_cell (cs_server st) tbl key fam q ts v ->
+  effects_keep (cs_server st) (effects st sched) tbl key fam q ts v ->
+  has_cell (cs_server (fst (crun st sched))) tbl key fam q ts v.
+Proof. exact gc_no_lost_write. Qed.
+Print Assumptions C16_gc_no_lost_write.
+
+Theorem C16_setcell_ok_has_cell : forall s tbl key fam q ts v now coins, server_ok s -> ts <> -1 ->
+  snd (step s (mkCall (BMutateRow tbl key [SetCell fam q ts v]) now coins)) = ok YNone ->
+  has_cell (fst (step s (mkCall (BMutateRow tbl key [SetCell fam q ts v]) now coins))) tbl key fam q ts v.
+Proof. exact setcell_ok_has_cell. Qed.
+Print Assumptions C16_setcell_ok_has_cell.
+
+(* sufficient conditions for "this commit does not delete the cell" *)
+Theorem C16_commit_other_table_keeps : forall s c tbl key fam q ts v,
+  AdminProofs.affected (cl_req c) <> Some tbl -> has_cell s tbl key fam q ts v -> has_cell (fst (step s c)) tbl key fam q ts v.
+Proof. exact commit_other_table_keeps. Qed.
+Print Assumptions C16_commit_other_table_keeps.
+
+Theorem C16_commit_other_row_keeps : forall s tbl key' muts now coins key fam q ts v, server_ok s -> key' <> key ->
+  has_cell s tbl key fam q ts v ->
+  has_cell (fst (step s (mkCall (BMutateRow tbl key' muts) now coins))) tbl key fam q ts v.
+Proof. exact commit_other_row_keeps. Qed.
+Print Assumptions C16_commit_other_row_keeps.
+
+Theorem C16_commit_other_columns_keeps : forall s tbl key muts now coins fam q ts v, server_ok s ->
+  Forall (sets_other_column fam q) muts ->
+  has_cell s tbl key fam q ts v ->
+  has_cell (fst (step s (mkCall (BMutateRow tbl key muts) now coins))) tbl key fam q ts v.
+Proof. exact commit_other_columns_keeps. Qed.
+Print Assumptions C16_commit_other_columns_keeps.
+
+(* non-vacuity: 150 rows with one old cell each, rule "max age 0" and a pass at clock 5000 that
+   condemns them; the pass needs two batches; between them a writer stores a fresh cell in row
+   120 (second batch).  The writer is not blocked, the fresh cell survives the second batch, every
+   other row is collected *)
+Definition C16h_rows : list (bytes * list mutation) :=
+  map (fun n => ([N.of_nat n], [SetCell [102%N] [113%N] 1000 [1%N]])) (seq 0 150).
+Definition C16h_s0 : server :=
+  fst (run [] [mkCall (BCreateTable [112%N] [116%N] [([102%N], Some (GMaxAge 0 0))]) 0 [];
+               mkCall (BMutateRows gc_tbl C16h_rows) 0 []]).
+Definition C16h_w : call := mkCall (BMutateRow gc_tbl [120%N] [SetCell [102%N] [113%N] 9000 [7%N]]) 0 [].
+Definition C16h_st0 : cstate := init_cstate C16h_s0 [[mkCall (BRunGC gc_tbl) 5000 []]; [C16h_w]].
+
+Example C16_handover_example :
+  server_ok C16h_s0
+  /\ (exists t, alookup gc_tbl C16h_s0 = Some t /\ length (t_rows t) = 150%nat)
+  /\ snd (crun C16h_st0 [0; 1; 1; 1; 0]%nat) = [OAt; OAt; OAt; ODone (ok YNone); ODone (ok YNone)]
+  /\ (exists keys, prog_at (fst (crun C16h_st0 [0%nat])) 0 = PGc keys 5000 /\ length keys = 50%nat)
+  /\ (exists t, alookup gc_tbl (cs_server (fst (crun C16h_st0 [0; 1; 1; 1; 0]%nat))) = Some t
+        /\ t_rows t = [([120%N], [mkFam [102%N] [mkCol [113%N] [mkCell 9000 [7%N] []]]])]).
+Proof.
+  split; [apply MutateProofs.C01_history|]. split; [eexists; split; vm_compute; reflexivity|].
+  split; [vm_compute; reflexivity|]. split; [eexists; split; vm_compute; reflexivity|].
+  eexists; split; vm_compute; reflexivity.
+Qed.
+
+(* the hypotheses of C16_gc_no_lost_write are met right after the writer's commit *)
+Example C16_no_lost_write_hyps :
+  let st := fst (crun C16h_st0 [0; 1; 1; 1]%nat) in
+  server_ok (cs_server st)
+  /\ has_cell (cs_server st) gc_tbl [120%N] [102%N] [113%N] 9000 [7%N]
+  /\ effects_keep (cs_server st) (effects st [0%nat]) gc_tbl [120%N] [102%N] [113%N] 9000 [7%N].
+Proof.
+  cbv zeta. split; [apply crun_server_ok; apply MutateProofs.C01_history|]. split.
+  - eexists. split; vm_compute; reflexivity.
+  - cbn [effects effects_keep]. split; [|exact I].
+    assert (E : exists keys, step_effect (fst (crun C16h_st0 [0; 1; 1; 1]%nat)) 0 = EGc gc_tbl 5000 keys)
+      by (eexists; vm_compute; reflexivity).
+    destruct E as [keys ->]. cbn [effect_keeps]. intros _ t rule Ht Hr idx c Hc.
+    assert (Ef : exists t0, alookup gc_tbl (cs_server (fst (crun C16h_st0 [0; 1; 1; 1]%nat))) = Some t0
+                            /\ t_fams t0 = [([102%N], Some (GMaxAge 0 0))])
+      by (eexists; split; vm_compute; reflexivity).
+    destruct Ef as [t0 [Et0 Ef]]. rewrite Et0 in Ht. injection Ht as <-. rewrite Ef in Hr. cbn in Hr. injection Hr as <-.
+    cbn [condemned]. rewrite Hc. reflexivity.
+Qed.
